@@ -697,7 +697,11 @@ class DictRefsContainer(RefsContainer):
           timezone: Optional timezone for reflog
           message: Optional message for reflog
         """
-        old = self.follow(name)[-1]
+        try:
+            old = self.follow(name)[-1]
+        except SymrefLoop:
+            # name is part of a symref loop; re-pointing it is how to break it
+            old = None
         new = SYMREF + other
         self._refs[name] = new
         self._notify(name, new)
@@ -1275,7 +1279,12 @@ class DiskRefsContainer(RefsContainer):
         try:
             _remove_empty_directories(filename)
             f.write(SYMREF + other + b"\n")
-            sha = self.follow(name)[-1]
+            try:
+                sha = self.follow(name)[-1]
+            except SymrefLoop:
+                # name is part of a symref loop; re-pointing it is how to
+                # break it
+                sha = None
             self._log(
                 name,
                 sha,
